@@ -37,6 +37,9 @@ class BpNode(object):
 
     def __init__(self, sim, node_id, name='bp', rx_routes=(), tx_routes=(), observer_order=29.5, **cfg_kwargs):
         import bp.agent  # pylint: disable=import-outside-toplevel
+        import bp.app  # noqa: F401  pylint: disable=import-outside-toplevel,unused-import
+        from vf.world.sim import install_clock  # pylint: disable=import-outside-toplevel
+        install_clock()
         self.sim = sim
         self.name = name
         self.node_id = node_id
